@@ -12,8 +12,13 @@ ROOT = os.path.dirname(os.path.dirname(os.path.abspath(__file__)))
 
 
 def main():
-    for pid in sys.argv[1:]:
-        src = f"/tmp/ben_{pid}_out"
+    args = sys.argv[1:]
+    rnd = ""
+    if args and args[0] == "--round2":
+        rnd, args = "b", args[1:]
+    for pid0 in args:
+        pid = pid0 + rnd
+        src = f"/tmp/ben2_{pid0}_out" if rnd else f"/tmp/ben_{pid0}_out"
         if not all(os.path.exists(os.path.join(src, f)) for f in ("patch.diff", "meta.json")):
             print(pid, "incomplete deliverable")
             continue
